@@ -153,17 +153,17 @@ _ADD = {
     "C01": " The seek dominates the write and the write dominates the record on every path (no conditional seek / skipped write); the held-range list is never reset or replaced (C09-G8). A staging file is opened only when none is held (H); the file status Retained is produced only after io::copy(staged file -> opened destination) returned (P). With the CRC option on, every kind of PDU - file data included - is accepted only behind the CRC comparison (C15-M), and transaction ids come from a wrapping read-and-increment so that two live transactions are not cross-wired under one id (C11-I3).",
     "C04": " The held-range list is only changed by recording a written segment (C09-G8). The report given to the sending user with a received Finished PDU is generated after the transaction took over that PDU's condition (S2). Outside the cancel routine the Finished PDU is built only right after finalisation, so a late PDU cannot rebuild the reported outcome (C13-Q3). Per entry point of a transaction, the kinds of error its own code can construct do not grow (E): an error from a handler ends the task of a still-addressed transaction, after which the daemon starts a fresh one under the same id.",
     "C05": " Items are self-delimiting (L2): a decoder that consults the end of its input (short read, read_to_end) is run only in tail position of its reader. No decoder passes a received name or text through a lossy or normalising conversion (C06-P4). The nested item types an encoder delegates to are exactly those its decoder delegates to (L6); no encoder clamps, saturates, sorts or drops part of a field (L7); a field decoded from bits that the encoder fills from something else is reported (L1). EndOfFile::decode reads the fault-location TLV exactly on the conditions other than 'No error' (L8). Wire integers are decoded unsigned: no signed read, no sign-extending cast in a decoder (L9).",
-    "C06": " No decoder uses a lossy or normalising text or path conversion (C06-P4); no decoder decides a value from a short read and end-of-input-delimited decoders run only in tail position (C05-L2) - two necessary conditions of 'whatever is accepted is canonical'.",
-    "C07": " Queued retransmission requests are de-duplicated on the whole request (S6); in the SendData phase the EOF is prepared only under cursor == file length (S7); prepare_eof always stores a fresh EOF built from the current condition (C10-K5). No integer cast in cfdp-daemon can truncate an offset / length / size (S8, narrowing `as` must be provably lossless); the pending-EOF mark is cleared only by handing the EOF to the transport (C10-K7); file data is handed to the transport only in the SendData / SendEof phases (C10-K8); a new transaction is configured with the peer's entity configuration (C11-I6). has_pdu_to_send is always true in the SendMetadata / SendData phases of an active transaction (S9). No adaptor that can drop a request lies between a received NAK's list and the retransmission queue (S10).",
+    "C06": " No decoder uses a lossy or normalising text or path conversion (C06-P4); no decoder decides a value from a short read and end-of-input-delimited decoders run only in tail position (C05-L2) - two necessary conditions of 'whatever is accepted is canonical'. No decoder edits (pop, truncate, retain ...) the octets it has read before they become the decoded value (P4).",
+    "C07": " Queued retransmission requests are de-duplicated on the whole request (S6); in the SendData phase the EOF is prepared only under cursor == file length (S7); prepare_eof always stores a fresh EOF built from the current condition (C10-K5). No integer cast in cfdp-daemon can truncate an offset / length / size (S8, narrowing `as` must be provably lossless); the pending-EOF mark is cleared only by handing the EOF to the transport (C10-K7); file data is handed to the transport only in the SendData / SendEof phases (C10-K8); a new transaction is configured with the peer's entity configuration (C11-I6). has_pdu_to_send is always true in the SendMetadata / SendData phases of an active transaction (S9). No adaptor that can drop a request lies between a received NAK's list and the retransmission queue (S10). The file checksum, which moves the source file's cursor, is computed only where the EOF is prepared (S11).",
     "C08": " max_nak_num is (budget - fixed part of the NAK's encoded_len) / encoded_len of one request (N7); a reported gap never extends beyond the window (C09-G7). A prompt makes the receiver refresh / send NAKs only on the Nak arm of its kind (N8); pending delayed gap checks are only appended, polled and drained, never re-timed or re-aimed (N9); no narrowing cast (C07-S8). Every delayed check drained on expiry is carried out: no path from the drain to the end of the timeout handler bypasses the gap computation over the drained windows (N10). The scope of a NAK spans all of its requests: smallest start, largest end (N2; the queue is not in offset order). The NAK timer is armed only where a NAK was sent, on resume, or under Immediate / after EOF (N11).",
-    "C09": " (G6) the coalescing helper is applied at the index whose end was just extended; (G7) a gap ending at a held range's start is pushed only under that start < window end; (G8) the receive transaction's list is mutated only by Segments::merge in store_file_data. An end extended through an index in the middle of the list is followed on every path by the coalescing helper (G6, converse); the byte counter is written only by adding the insert operation's result (C20-P2).",
+    "C09": " (G6) the coalescing helper is applied at the index whose end was just extended; (G7) a gap ending at a held range's start is pushed only under that start < window end; (G8) the receive transaction's list is mutated only by Segments::merge in store_file_data. An end extended through an index in the middle of the list is followed on every path by the coalescing helper (G6, converse); the byte counter is written only by adding the insert operation's result (C20-P2). No decision of the insert operation compares the number of held ranges with a bound (G9).",
     "C10": " On the Cancelled arm of the timeout dispatch no fault handler runs (abandon instead, K4); the sender's prepare_eof always stores a fresh EOF carrying the current condition (K5); until_timeout returns the timer deadline in every phase in which handle_timeout acts (K6). The pending-EOF mark is cleared only where the EOF was handed to the transport (K7); file data goes out only in the SendData / SendEof phases, never in Cancelled (K8). A non-limit expiry re-arms with restart, never reset, so the limit is reached (C17-W). In acknowledged mode the send step never ends a sender whose phase is Cancelled (K9). From where an EOF (receiver) or Finished (sender) is bound, every successful path adopts its condition (K10).",
     "C11": " The id a transaction task returns for reaping, the transaction's id(), the configuration built at spawn and forward_pdu's routing key are all (source entity, sequence number) of the PDU header / of the allocated id (I5). The entity configuration of a new transaction is looked up under the Put's destination entity / the PDU's source entity (I6); PDUs and commands are handed to transaction tasks only with the waiting send, never try_send (I7). Every received PDU resets the inactivity timer of the transaction it is routed to, so a transaction started by a stray PDU ends by its limits (C17-H7). Indications too are handed to the user with the waiting send (I7, whole crate). The transport of a transaction started by a received PDU is looked up under the PDU's peer for its direction (I8). A failed receive() never ends pdu_handler (I9); a transaction task awaits its transport permit only as a branch of its select (I10).",
     "C12": " The accumulator is initialised from a component only under the test that the component is a Prefix. A sanitised path is not edited afterwards (with_extension, parent, join, ...) before it reaches a filesystem call (R2).",
     "C13": " Each operation in process_request sits behind a probe (exists / is_file / is_dir) of the request's first name. replace_file has read file 2 completely before it overwrites file 1 (Q4). Q2 is shape-independent: it follows the request iterator, the element each next() yields, is_fail() of each response and the branches on it (flag or break). No filestore operation uses a primitive that silently creates missing ancestors (Q5). Each action runs only under its own precondition on the named objects (Q1: exists / is_file / is_dir facts at the operation). The fault handler's verdict is fixed by the action taken and obeyed by its callers (C17-H9/H10), so no request runs for a delivery the handler just cancelled.",
     "C14": " The short-read loop is left only on the empty read (E). No path from the read to consume / the next iteration bypasses the code that advances the carried word position (K). Blocks are cut into 4-byte words only where the carried position is 0 or no bytes remain (A).",
     "C15": " No decoder normalises a received name or text, so the re-encoding the CRC is computed over is the received encoding (C06-P4). The re-encoding is shortened exactly once before the CRC is computed and PDU::encode computes the CRC over everything written before it (M / W). No encoder alters the value it writes (C05-L7), so the re-encoding of a corrupted PDU cannot reproduce the received octets. The CRC is verified on the re-encoding of what was decoded, so a corrupted PDU is accepted exactly when encode(decode(x)) gives back the received octets for a corrupted x: the codec-agreement rules C05-L1 (bit layout, decoded-only fields) and C05-L6 (nesting) are therefore also run for C15. The accepting comparison is made on the received and the computed CRC themselves, not on a transformed value (M).",
-    "C17": " In send_naks the NAK count is reset when data arrived since the previous NAK and merely restarted otherwise (H8); Timer::new is called with the like-named configuration fields, builds each counter from the like-named parameters, each restart_/reset_ helper drives the like-named counter, Counter::restart runs update() before un-pausing (T2); Counter::start is used only on freshly created counters (C19-C); plus C10-K4/K6. An expiry of one timer never hides the expiry of another: each poll of a timer is reachable from every outcome of the preceding tests on other timers (W2). The NAK-progress test of H8 reads the receiver's progress counter, which grows exactly by the newly held bytes (C20-P2). The receiver's handler returns true exactly on the Ignore arm (H9) and every caller branches on the verdict (H10); the sender's inactivity reset on reception is conditional on the phase only (H7).",
+    "C17": " In send_naks the NAK count is reset when data arrived since the previous NAK and merely restarted otherwise (H8); Timer::new is called with the like-named configuration fields, builds each counter from the like-named parameters, each restart_/reset_ helper drives the like-named counter, Counter::restart runs update() before un-pausing (T2); Counter::start is used only on freshly created counters (C19-C); plus C10-K4/K6. An expiry of one timer never hides the expiry of another: each poll of a timer is reachable from every outcome of the preceding tests on other timers (W2). The NAK-progress test of H8 reads the receiver's progress counter, which grows exactly by the newly held bytes (C20-P2). The receiver's handler returns true exactly on the Ignore arm (H9) and every caller branches on the verdict (H10); the sender's inactivity reset on reception is conditional on the phase only (H7). Outside the Cancelled phase the timeout dispatch never abandons directly (H11); the pending flag of EOF / Finished is raised only under the ACK timer's expiry (W3).",
     "C18": " In unacknowledged mode prepare_finished is reached only on the true edge of 'metadata held and closure requested' with default false (U5). The sender cannot stall before its EOF: has_pdu_to_send is always true in the SendMetadata / SendData phases (C07-S9).",
     "C19": " Counter::start (un-pause keeping the old start time) is only applied to a counter created in the same function, never to the limit timers (C). Counter::restart accounts for elapsed time before un-pausing, so suspended time is not counted (C17-T2). No decision in the PDU-processing path reads the suspension state except to gate timer arming (R); resume re-arms on every path of the phase each timer the phase relies on, and the receiver's NAK timer / list whenever NAKs apply (D). Commands - Suspend and Resume among them - reach a busy transaction: they are handed over with the waiting send (C11-I7).",
     "C20": " The overlap counts of the coalescing helper reach the new-bytes result and the helper is applied at the extended index (C09-G1/G6). Every merge() on the receiver's range list is followed on every normal path by the counter update (P4); a first-pass segment is sent with the progress update on (P5). No transaction field other than the counter holds a copy of the progress figure (P6). The list of held ranges is never reset while the counter is kept (C09-G8).",
